@@ -256,6 +256,8 @@ pub enum Ev {
     WouldBlock,
     Interrupted,
     Other,
+    /// this read attempt reports end of input (`Ok(0)`); later attempts continue
+    Eof,
 }
 
 pub fn parse_events(toks: &[&str]) -> Option<Vec<Ev>> {
@@ -265,6 +267,7 @@ pub fn parse_events(toks: &[&str]) -> Option<Vec<Ev>> {
             "W" => v.push(Ev::WouldBlock),
             "I" => v.push(Ev::Interrupted),
             "O" => v.push(Ev::Other),
+            "E" => v.push(Ev::Eof),
             t => v.extend(untok(t)?.into_iter().map(Ev::Byte)),
         }
     }
@@ -293,9 +296,26 @@ impl Read for IoPlayer {
                     Ev::WouldBlock => Err(std::io::ErrorKind::WouldBlock.into()),
                     Ev::Interrupted => Err(std::io::ErrorKind::Interrupted.into()),
                     Ev::Other => Err(std::io::Error::new(std::io::ErrorKind::Other, "injected")),
+                    Ev::Eof => Ok(0),
                 }
             }
         }
+    }
+}
+
+/// an iterator that is not fused: `None` entries are reported as `None`, later calls continue
+pub struct NonFused {
+    items: Vec<Option<u8>>,
+    pos: usize,
+}
+impl Iterator for NonFused {
+    type Item = u8;
+    fn next(&mut self) -> Option<u8> {
+        let r = self.items.get(self.pos).copied().flatten();
+        if self.pos < self.items.len() {
+            self.pos += 1;
+        }
+        r
     }
 }
 
@@ -314,7 +334,7 @@ impl embedded_hal_02::serial::Read<u8> for EhPlayer {
                 match ev {
                     Ev::Byte(b) => Ok(b),
                     Ev::WouldBlock => Err(nb::Error::WouldBlock),
-                    Ev::Interrupted | Ev::Other => Err(nb::Error::Other(7)),
+                    Ev::Interrupted | Ev::Other | Ev::Eof => Err(nb::Error::Other(7)),
                 }
             }
         }
@@ -664,6 +684,23 @@ fn sml_generic<B: Buffer>(kind: &str, use_default: bool, mk: fn() -> sml_rs::Sml
         .filter_map(|e| if let Ev::Byte(b) = e { Some(*b) } else { None })
         .collect();
     match kind {
+        "mem" if evs.iter().any(|e| matches!(e, Ev::Eof)) => {
+            // a non-fused iterator: yields `None` at the `E` positions and items again afterwards
+            let items: Vec<Option<u8>> = evs
+                .iter()
+                .filter_map(|e| match e {
+                    Ev::Byte(b) => Some(Some(*b)),
+                    Ev::Eof => Some(None),
+                    _ => None,
+                })
+                .collect();
+            let it = NonFused { items, pos: 0 };
+            if use_default {
+                run_sml_calls(SmlReader::from_iterator(it), calls)
+            } else {
+                run_sml_calls(mk().from_iterator(it), calls)
+            }
+        }
         "mem" => {
             // slice source and iterator sources (by value and by reference) must agree
             let a = if use_default {
